@@ -42,6 +42,9 @@ def gen_pair(rng, mode):
     elif mode == 'ext2':
         # binary nonterminals: rules with two external nodes, listed in either order by either grammar
         names = [{'S': 0, 'X': 1, 'R': 2, 'R2': 2}, {'S': 0, 'Y': 1, 'Q': 2}]
+    elif mode == 'nt_named_like_term':
+        # a NONTERMINAL of the first grammar is named like a TERMINAL of the second (legal: only two terminals can conflict)
+        names = [{'S': 0, 'a': 1, 'c': 0}, {'S': 0, 'Y': 1, 'V': 0}]
     else:
         names = [{'S': 0, 'X': 1, 'W': 0}, {'S': 0, 'Y': 1, 'V': 0}]
     tcount = [0]
@@ -69,7 +72,7 @@ def gen_pair(rng, mode):
                     continue
                 for k in range(rng.randint(0, 2)):
                     t = rng.choice(list(TERMS))
-                    if len(TERMS[t]) > len(sk['nodes']):
+                    if t in names[gi] or len(TERMS[t]) > len(sk['nodes']):
                         continue
                     typ = TERMS[t]
                     if mode == 'conflict' and gi == 1 and t == 'a':
@@ -98,7 +101,7 @@ def gen_pair(rng, mode):
     # a terminal name used in both must have ONE type unless we want a conflict
     if mode != 'conflict':
         for t in TERMS:
-            if t in g1['els'] and t in g2['els']:
+            if t in g1['els'] and t in g2['els'] and g1['els'][t]['t'] and g2['els'][t]['t']:
                 g2['els'][t] = g1['els'][t]
     return g1, g2
 
@@ -177,7 +180,7 @@ def run(tier, seed):
                      'the naming of nonterminal pairs is read from fggs.conjunction.nonterminal_pairs as a hint that TLC checks; without a working hint TLC searches all namings (up to 4 pairs)']
     rng = rng_for(seed, 'c17')
     n = 240 if tier == 'quick' else 3000
-    modes = ['plain', 'clash3', 'clash', 'sharedterm', 'self', 'self_implicit', 'conflict', 'ext2']
+    modes = ['plain', 'clash3', 'clash', 'sharedterm', 'self', 'self_implicit', 'conflict', 'ext2', 'nt_named_like_term']
     jobs = []
     for i in range(n):
         mode = modes[i % len(modes)]
